@@ -8,9 +8,13 @@ import os
 REPO = os.environ.get('VERIF_DEV_REPO') or '/repo'
 
 REFERENCE = {'source': 'deep', 'lookupForeign': 'deep', 'lookupWritesInput': True,
-             'addFieldsTop': 'shallow', 'unwindDoc': 'deep', 'samplePops': False,
+             'addFieldsTop': 'shallow', 'addFieldsNested': 'shallow', 'unwindDoc': 'deep',
+             'unwindIndexed': 'deep', 'samplePops': False,
              'facetSharesInput': False, 'literal': 'deep', 'constArray': 'deep',
              'outStores': 'deep'}
+
+_DEEP = ('copy.deepcopy', 'deepcopy')
+_SHALLOW = ('dict', 'copy.copy', 'collections.OrderedDict')
 
 
 def _funcs(path):
@@ -67,6 +71,80 @@ def _branch_return(fn, marker):
     return None
 
 
+def _copy_kind(node):
+    """how an expression hands a value on: deep / shallow copy call, or the value itself"""
+    if isinstance(node, ast.Call):
+        f = ast.unparse(node.func)
+        if f in _DEEP:
+            return 'deep'
+        if f in _SHALLOW:
+            return 'shallow'
+    return 'none'
+
+
+def _weakest(kinds):
+    kinds = list(kinds)
+    for k in ('none', 'shallow', 'deep'):
+        if k in kinds:
+            return k
+    return 'none'
+
+
+def _add_fields_nested(fn):
+    """`$addFields` walks a dotted name in a loop `for subfield in parts[:-1]`: how is the
+    sub-document `out_doc[subfield]` obtained that the walk then descends into and writes?
+    Every assignment `out_doc[subfield] = <expr>` whose right-hand side READS the document
+    (mentions `out_doc`) counts; the weakest copy decides."""
+    kinds = []
+    for loop in ast.walk(fn):
+        if not (isinstance(loop, ast.For) and 'parts' in ast.unparse(loop.iter)):
+            continue
+        var = ast.unparse(loop.target)
+        for n in ast.walk(loop):
+            if isinstance(n, ast.Assign) and any(
+                    isinstance(t, ast.Subscript) and ast.unparse(t.slice) == var
+                    for t in n.targets) and 'out_doc' in ast.unparse(n.value):
+                kinds.append(_copy_kind(n.value))
+    return _weakest(kinds) if kinds else 'none'
+
+
+def _assigned_kind(fn, name, before):
+    """how the local `name` was obtained at its last assignment above line `before`"""
+    best = None
+    for n in ast.walk(fn):
+        if isinstance(n, ast.Assign) and n.lineno < before and any(
+                isinstance(t, ast.Name) and t.id == name for t in n.targets):
+            if best is None or n.lineno > best.lineno:
+                best = n
+    if best is None:
+        return 'none'           # a parameter / loop variable: the object that was handed in
+    if isinstance(best.value, ast.Call) and best.value.args and isinstance(
+            best.value.args[0], ast.Name) and best.value.args[0].id == name and \
+            _copy_kind(best.value) == 'none':
+        # `new_doc = helpers.set_value_by_dot(new_doc, …)` hands the same object back
+        return _assigned_kind(fn, name, best.lineno)
+    return _copy_kind(best.value)
+
+
+def _unwind_indexed(uw):
+    """what does `$unwind` write an includeArrayIndex into?  Every call of the local helper that
+    writes the index (`_set_index(<doc>, …)`) must be handed a deep copy: either the copy call
+    itself or a local that was assigned one.  (The kept documents go through `_preserved`.)"""
+    inner = {n.name: n for n in ast.walk(uw) if isinstance(n, ast.FunctionDef) and n is not uw}
+    if '_set_index' not in inner:
+        return 'none'           # not the code this translator knows: the table must differ
+    kinds = []
+    for scope in [uw] + list(inner.values()):
+        for n in ast.walk(scope):
+            if isinstance(n, ast.Call) and ast.unparse(n.func) == '_set_index' and n.args:
+                a = n.args[0]
+                if isinstance(a, ast.Name):
+                    kinds.append(_assigned_kind(scope, a.id, n.lineno + 1))
+                else:
+                    kinds.append(_copy_kind(a))
+    return _weakest(kinds) if kinds else 'none'
+
+
 def extract():
     agg = _funcs(os.path.join(REPO, 'mongomock', 'aggregate.py'))
     col = _funcs(os.path.join(REPO, 'mongomock', 'collection.py'))
@@ -83,10 +161,17 @@ def extract():
             isinstance(t, ast.Subscript) and ast.unparse(t.value) in loop_vars for t in n.targets)
         for n in ast.walk(lk))
     d['addFieldsTop'] = _copy_of(agg['_handle_add_fields_stage'], 'doc')
+    d['addFieldsNested'] = _add_fields_nested(agg['_handle_add_fields_stage'])
     uw = agg['_handle_unwind_stage']
-    deep = [n for n in _call_nodes(uw, 'copy.deepcopy') if n.args and ast.unparse(n.args[0]) == 'doc']
-    # both places that build a new document (empty array with preserve…, one per element)
-    d['unwindDoc'] = 'deep' if len(deep) >= 2 else _copy_of(uw, 'doc') if not deep else 'mixed'
+    # both places that build a new document out of the input document (empty array with
+    # preserve…, one per element): `new_doc = <copy>(doc)`; the weakest copy decides
+    built = [_copy_kind(n.value) for n in ast.walk(uw)
+             if isinstance(n, ast.Assign) and any(isinstance(t, ast.Name) and t.id == 'new_doc'
+                                                  for t in n.targets)
+             and isinstance(n.value, ast.Call) and n.value.args
+             and ast.unparse(n.value.args[0]) == 'doc']
+    d['unwindDoc'] = _weakest(built) if len(built) >= 2 else 'none'
+    d['unwindIndexed'] = _unwind_indexed(uw)
     sm = agg['_handle_sample_stage']
     # any call that edits the option dict in place
     d['samplePops'] = any(c in ('options.pop', 'options.popitem', 'options.clear',
@@ -123,8 +208,8 @@ def _lean(v):
 def write_lean(path):
     d = extract()
     fields = ', '.join('%s := %s' % (k, _lean(d[k])) for k in REFERENCE)
-    src = '''/- GENERATED by harness/extract_agg_discipline.py from %s/mongomock/{aggregate,collection}.py
-   on every run of ./check C16.  Do not edit. -/
+    src = '''/- GENERATED by harness/extract_agg_discipline.py from mongomock/{aggregate,collection}.py of the
+   tree under check (/repo, or $VERIF_DEV_REPO) on every run of ./check C16.  Do not edit. -/
 import MongoModel.AggHeap
 
 namespace MongoModel.Generated.AggDiscipline
@@ -137,7 +222,7 @@ def discipline : Disc := { %s }
 theorem discipline_is_reference : discipline = Disc.reference := by decide
 
 end MongoModel.Generated.AggDiscipline
-''' % (REPO, fields)
+''' % (fields,)
     old = open(path).read() if os.path.exists(path) else None
     if old != src:
         with open(path, 'w') as fh:
